@@ -262,6 +262,21 @@ void gen(Rng& r, Plan& p, const GenParams& gp) {
     add(2, K_CANCEL, 0, 1, 0);
     return;
   }
+  if (scenario == 0 && r.chance(1, 10)) {
+    // targeted shape: a history of cancellations inside the list (newest first, then
+    // its older neighbour), a new waiter that reuses a released node, then wakes:
+    // the list must still reach the oldest waiter and nobody of another futex
+    nwait = 4; p.cfg["nwait"] = 4;
+    for (int w = 0; w < 3; w++) { add(1, K_LAUNCH, 2, w, (int64_t)r.below(2) | (1 << 8)); add(1, K_AWAIT, 0, w, 0); }
+    int first = r.chance(3, 4) ? 2 : 1, second = first == 2 ? 1 : (r.chance(1, 2) ? 2 : 0);
+    add(1, K_CANCEL, 0, first, 0);
+    add(1, K_CANCEL, 0, second, 0);
+    add(1, K_LAUNCH, (int64_t)r.below(3), 3, (int64_t)r.below(2) | (1 << 8) | ((int64_t)r.below(2) << 9));
+    add(1, K_AWAIT, 0, 3, 0);
+    add(1, r.chance(1, 2) ? K_WAKE_ONE : K_WAKE_ALL, 0, 0, 0);
+    if (r.chance(1, 2)) add(1, K_WAKE_ONE, 0, 0, 0);
+    return;
+  }
   if (scenario == 0 && r.chance(1, 6)) {
     // targeted shape: wake_all over two suspended waiters while a third one registers
     nwait = 4; p.cfg["nwait"] = 4;
